@@ -277,7 +277,7 @@ func visitInstr(fr *frame, instr ssa.Instruction) continuation {
 			panic(runtimePanic(fr.i, "runtime error: invalid memory address or nil pointer dereference"))
 		}
 		if fr.i.mon != nil {
-			fr.i.mon.onStore(fr, addr, instr)
+			fr.i.mon.onStoreV(fr, addr, instr, fr.get(instr.Val))
 		}
 		store(mustDeref(instr.Addr.Type()), addr, fr.get(instr.Val))
 
@@ -415,6 +415,13 @@ func visitInstr(fr *frame, instr ssa.Instruction) continuation {
 		switch m := m.(type) {
 		case *smap:
 			if fr.i.mon != nil {
+				if _, watched := fr.i.mon.maps[m]; watched && indexable(key) && m.nsym == 0 {
+					if p, ok := m.idx[key]; ok && sameValue(m.vals[p], v, 0) {
+						fr.i.mon.note(fr, "same-value write to pre-existing map "+fr.i.mon.maps[m], instr.Pos())
+						m.insert(fr.i, key, v)
+						break
+					}
+				}
 				fr.i.mon.onMapWrite(fr, m, instr)
 			}
 			m.insert(fr.i, key, v)
